@@ -19,6 +19,8 @@ verus! {
 //@include spec/driver_std.spec.rs
 //@include spec/driver.spec.rs
 //@include spec/static.spec.rs
+//@include spec/closed.spec.rs
+//@include spec/noninterf.spec.rs
 
 impl<'a, 'b, T: TestDriver> DataRowIterator<'a, 'b, T> {
 //@decl DataRowIterator.try_new
